@@ -112,6 +112,9 @@ def rank(interp, env, v):
         if "inner" in v.fields:
             return rank(interp, env, v.fields["inner"])
         return None
+    if isinstance(v, Agg) and v.name == "core::cmp::Reverse" and v.fields:
+        r = rank(interp, env, v.fields[0])
+        return None if r is None else -r
     if isinstance(v, Agg) and v.fields and len(v.fields) == 1:
         return rank(interp, env, v.fields[0])
     if isinstance(v, (int, float)) and not isinstance(v, bool):
